@@ -110,6 +110,7 @@ def k7scen (t : Tokens) : String :=
   | "clunk-races-inflight-read" => "clunked=1 closed_early=0 closed_after=1 uac=0"
   | "cut-with-request-in-backend" => "returned_early=0 closed_early=0 returned=1 leaks= dbl= uac="
   | "panic-in-unlinkat-keeps-serving" => "efault=1 child=1 again=1"
+  | "rread-keeps-its-data-while-waiting-to-be-written" => "clean=1"
   | "moved-fid-and-fresh-fid-share-the-path-lock" => "formed=1 overlap=0"
   | _ => "?"
 
